@@ -12,6 +12,18 @@ ASSUME = [
 ]
 
 
+def documented_layout(run):
+    """the server layout file as documented (first yaml block of the 'Server generation' section)"""
+    import re
+    doc = open("/repo/docs/reference/templates/template_layout.md").read()
+    m = re.search(r"## Server generation.*?```yaml\n(.*?)```", doc, re.S)
+    if not m or "skip_exists" not in m.group(1):
+        raise Infra("the documented server layout cannot be extracted from docs/reference/templates/template_layout.md")
+    p = run.path("default-server.yml")
+    open(p, "w").write(m.group(1))
+    return p
+
+
 def check(run, replay=None):
     vh = run.build_vh()
     swagger = run.build_swagger()
@@ -40,7 +52,7 @@ def check(run, replay=None):
     cpath = run.path("cases.ndjson"); write_ndjson(cpath, cases)
     tpath = run.path("trace.ndjson")
     os.makedirs(run.path("w"), exist_ok=True)
-    run.sh([vh, "regen-drive", "-cases", cpath, "-out", tpath, "-swagger", swagger, "-work", run.path("w")], timeout=6000)
+    run.sh([vh, "regen-drive", "-cases", cpath, "-out", tpath, "-swagger", swagger, "-work", run.path("w"), "-layout", documented_layout(run)], timeout=6000)
     trace = read_ndjson(tpath)
     r = run.tlc("TraceRegen", "TraceRegen", workers=1, timeout=1800, files={"trace.ndjson": tpath}, allow_fail=True)
     if r["depth"] != len(trace) + 1 or not r["ok"]:
@@ -59,6 +71,7 @@ def check(run, replay=None):
     distinct = len({json.dumps(c["hist"]) for c in cases})
     cov = dict(states=mc["states"], transitions=mc["transitions"], traces_validated_against_impl=len(cases),
                trace_events=len(trace), generate_runs=len(gens), failed_runs=len(failed),
+               failed_by=sorted({"%s [%s]: %s" % (e["cmd"], e["opt"], (e.get("err") or e.get("freshErr") or "")[-120:].replace("\n", " ")) for e in failed})[:12],
                evaluations=len(cases), distinct_nontrivial=distinct,
                rule="behaviours of Regen.tla sampled by TLC -simulate (seeded), each starting with a generation; distinct = distinct histories",
                samples=[cases[0]["hist"], cases[-1]["hist"]], history_depth=depth, rejected_events=len(rejects),
